@@ -222,7 +222,7 @@ def main(argv=None):
         path = os.path.join(vf.VERIF, "evidence", f"{prop}.json")
         json.dump(jsonable(evidence), open(path + ".tmp", "w"), indent=1)
         os.replace(path + ".tmp", path)
-    mon = ", ".join(f"{k}={v}" for k, v in sorted(counters.items())[:14])
+    mon = ", ".join(f"{k}={v}" for k, v in sorted(counters.items())[:40])
     print(f"{prop} {args.tier} seed={seed}: evaluations={evaluations} "
           f"distinct_nontrivial={len(sigs)} violations={n_new} wall={wall}s [{mon}]")
     return rc
